@@ -47,14 +47,13 @@ def rows (lookup : Str → Option OhRec) (ns : Map) (fidb user : FileC) (uuid : 
         match mergeConfig T lookup (probeNs s) (loadUser fidb ini.toFile) with
         | .error _ => pure none
         | .ok c2 =>
-          let known := (loadUser fidb user).hasSection s
           let out := T.configurable.filterMap fun kt =>
             match effective r.args kt.1, T.defaults.lookup kt.1 with
             | some v, some d =>
-              let w := viewOf fidb user uuid s kt.1 kt.2 v ((libCfg.lookup kt.1).getD d)
+              let w := viewOf ns fidb user uuid s kt.1 kt.2 v ((libCfg.lookup kt.1).getD d)
+                (lowOf T lookup (effective r.args "ofxhome".toList) kt.1)
                 (lowOf T lookup (effective c2 "ofxhome".toList) kt.1)
-              let cliSet := ((extractns ns).lookup kt.1).isSome
-              let loss := match lossClass T w cliSet known with
+              let loss := match lossClass T w with
                 | none => "ok"
                 | some l => l.name
               some (SExp.list [encStr kt.1, encBool (PersistOk T w), .atom (outcomeName (outcome w)), .atom loss,
